@@ -18,12 +18,19 @@ LEXEMES = [
     "<gallery>\nImage:x.png|c\n</gallery>", "<source lang=\"c\">", "</source>", "<timeline>x</timeline>", "<!--", "-->",
     "&amp;", "&#65;", "&#99999999999;", "&#xffffffffff;", "&bogus;", "\x7fUNIQ-x-1-ab-QINU\x7f", "", "\x00", "\U0001F600",
     "{{", "}}", "{{{", "}}}", "{{t}}", "{{t|a=1}}", "----", "\n ", "~~~~", "<li>", "</li>", "<table>", "<tr>", "<td>", "</table>",
+    # numbers written in the wikitext that a tag extension turns into work or into int()
+    "<pages from=1 to=99999999 index=x />", "<pages from=5 to=3 index=x />",
+    "<imagemap>\nImage:x.png|100px\npoly 10 20 30 40 ... [[K]]\nrect 1.2.3 4 5 6 [[x]]\ncircle . 2 3 [[y]]\ndefault [[z]]\n</imagemap>",
+    "<imagemap>\nImage:x.png|100px\nrect " + "1" * 5000 + " 2 3 4 [[x]]\n</imagemap>",
+    # templates that include themselves through a tag whose body is parsed by a nested parser
+    "{{SelfRef}}", "{{SelfPoem}}", "{{SelfGallery}}",
     "<td style=\"overflow:auto;height:200px\">x</td>", "<h2>", "</h2>", "<p>", "<blockquote>", "<small>", "<sup>", "<u>", "<s>",
 ]
 
 TEMPLATES = {
     "T": "text {{{1|def}}}", "Rec": "a {{Rec}} b", "M1": "{{M2}}", "M2": "{{M1}} x", "Tab": "{|\n| a\n|}",
     "Ul": "\n* x\n* y", "Open": "<div><b>", "Cell": "| c ||",
+    "SelfRef": "a<ref>{{SelfRef}}</ref>", "SelfPoem": "<poem>{{SelfPoem}}</poem>", "SelfGallery": "<gallery>\n{{SelfGallery}}\n</gallery>",
 }
 
 
@@ -243,12 +250,18 @@ def texts(tier, seed):
     return out
 
 
+def _limit_memory():
+    """a number written in the wikitext must not be able to take the checking machine down: 4 GiB per worker"""
+    import resource
+    resource.setrlimit(resource.RLIMIT_AS, (4 << 30, 4 << 30))
+
+
 def run_passes(tier, seed, want=("c01", "c05", "c06")):
     cases = texts(tier, seed)
     failures = {w: {} for w in ("c01", "c05", "c06")}
     classes = set()
     samples = []
-    with ProcessPoolExecutor(max_workers=14) as pool:
+    with ProcessPoolExecutor(max_workers=14, initializer=_limit_memory) as pool:
         for r in pool.map(one_input, [(t, "en") for t in cases], chunksize=400):
             for w in failures:
                 if w in r:
